@@ -33,7 +33,7 @@ def showEv : Ev → String
   | .createCall op => s!"create({op})"
   | .call op ph k o => s!"{ph.name}({op},{k},{showObj o})"
   | .detach op id => s!"detach({op},{id})"
-  | .destroy id => s!"destroy({id})"
+  | .destroy op id => s!"destroy({op},{id})"
   | .handout op o => s!"handout({op},{showObj o})"
   | .result op r => s!"result({op},{showRes r})"
   | .returned _ _ => ""
